@@ -51,11 +51,18 @@ func main() {
 	out := flag.String("out", "", "output directory")
 	pkgsF := flag.String("pkgs", "", "comma separated package patterns relative to repo")
 	randF := flag.String("rand", "", "comma separated packages whose math/rand is replaced by vrand")
+	boF := flag.String("backoff", "", "comma separated packages whose cenkalti/backoff is replaced by vbackoff (virtual clock)")
 	tags := flag.String("tags", "", "build tags")
 	flag.Parse()
 	if *out == "" || *pkgsF == "" {
 		fmt.Fprintln(os.Stderr, "usage: vinstr -out DIR -pkgs a,b")
 		os.Exit(2)
+	}
+	boPkgs := map[string]bool{}
+	for _, p := range strings.Split(*boF, ",") {
+		if p != "" {
+			boPkgs[strings.TrimPrefix(p, "./")] = true
+		}
 	}
 	randPkgs := map[string]bool{}
 	for _, p := range strings.Split(*randF, ",") {
@@ -101,7 +108,7 @@ func main() {
 			if strings.HasSuffix(name, "_test.go") {
 				continue
 			}
-			r := &rewriter{fset: p.Fset, info: p.TypesInfo, file: f, st: &st, useRand: randPkgs[rel]}
+			r := &rewriter{fset: p.Fset, info: p.TypesInfo, file: f, st: &st, useRand: randPkgs[rel], useBackoff: boPkgs[rel]}
 			if err := r.rewrite(); err != nil {
 				fmt.Fprintf(os.Stderr, "vinstr: %s: %v\n", name, err)
 				os.Exit(2)
@@ -136,6 +143,7 @@ type rewriter struct {
 	file    *ast.File
 	st      *stats
 	useRand bool
+	useBackoff bool
 	usedVrt bool
 	skip    map[ast.Node]bool // top-level comm operations of select clauses
 	rkind   map[*ast.RangeStmt]string
@@ -211,6 +219,12 @@ func (r *rewriter) rewrite() error {
 		np, ok := importMap[p]
 		if !ok && r.useRand && p == "math/rand" {
 			np, ok = base+"vrand", true
+		}
+		if !ok && r.useBackoff && p == "github.com/cenkalti/backoff/v4" {
+			np, ok = base+"vbackoff", true
+			if im.Name == nil {
+				im.Name = ast.NewIdent("backoff")
+			}
 		}
 		if !ok {
 			continue
